@@ -716,8 +716,8 @@ func emitHistory(w *casefile.Writer, res histResult) {
 // probeNewToken is one deliberate history outside the property's quantifier (a re-delivery of
 // the same bytes carries the same tokens): a known ID arrives again with a token that is new to
 // the fraction. The repeat is dropped, but its token is entered into the token list with an
-// empty posting list. Reported under its own narrow class; when the store answers, the history
-// is an ordinary case (first delivery wins, the new token selects nothing).
+// empty posting list; after seal a search for it panics inside the store (recovered by the
+// searcher). Recorded in stats.json only (decision of the lead: not a violation of C17).
 func probeNewToken(w *casefile.Writer) {
 	a := Doc{MID: 1039, RID: 1, Var: 0, Pad: 4, Toks: []int{tokAll}}
 	a2 := a
@@ -731,17 +731,17 @@ func probeNewToken(w *casefile.Writer) {
 }
 
 func emitProbe(w *casefile.Writer, res histResult) {
-	h := res.h
-	w.Count("probe:repeat-new-token")
+	// stats-only observation: outside the quantifier (a repeated ID carries the tokens of its first
+	// delivery), hence neither a violation nor a case
 	if msg := res.crash + res.fatal + res.err; msg != "" {
 		if res.crash != "" {
 			msg = crashLine(res.crash)
 		}
-		w.Violate("repeat-new-token-empty-posting", "a known ID re-delivered with a token new to the fraction leaves that "+
-			"token with an empty posting list; observed: "+msg, h)
+		w.Count("observation:repeat-new-token-empty-posting")
+		w.Extra["observation:repeat-new-token-empty-posting"] = map[string]any{"history": res.h, "observed": msg}
 		return
 	}
-	emitHistory(w, res)
+	w.Count("observation:repeat-new-token-answers")
 }
 
 // crashLine extracts the panic / fatal message and the first frames from a dead child's stderr.
